@@ -90,7 +90,7 @@ func isNameByte(c byte) bool {
 }
 
 func TestVerifBoundedTokenizer(t *testing.T) {
-	n := verifBound(5, 6)
+	n := verifBound(5, 7)
 	env := map[string]string{"a": "x y", "b": "$a'q"}
 	tokens := []string{"w", " ", "\t", "'", "''", "$a", "${b}", "#", "\r", "-", "\u00e0"}
 	cases, nontrivial, fails := 0, 0, 0
